@@ -194,6 +194,7 @@ inline PlanText gen_readers(const CfgEntry &ce, const GenCtx &g, Stats &st, size
     p.set("script_seed", work.next() >> 1);
     p.set("qseed", work.next() >> 1);
     p.set("qmax", 300);
+    { Rng c = sim::stream(g.run_seed, "cold"); p.set("cold", c.chance(600) ? 1 : 0); } // most runs: the readers are the object's first callers
     size_t n = g.profile == "boundary" ? (size_t) cfg.range(1, 4) : (cfg.chance(60) ? (size_t) cfg.range(20000, g.tsan ? 40000 : 100000) : (size_t) cfg.range(1, 3000));
     // scale slot (every flavour, every 256th run of a worker and its third): an object with several hundred thousand keys, i.e.
     // tens of thousands of segments (one-level indexes above 2^16 segments), few operations per reader
@@ -219,16 +220,29 @@ inline Outcome run_readers(const CfgEntry &ce, const PlanText &p, Stats &st, Sub
     Outcome out;
     Trace tr;
     sim::Env env = env_from_plan(p);
-    sim::begin_run(env); // readers are interleaved by the same scheduler; construction happens here, single-threaded
-    std::unique_ptr<Subject> subj;
-    try { subj.reset(make(p)); }
-    catch (const std::exception &e) { sim::end_run(); out.fail("ctor-exception", std::string("constructing the shared object threw: ") + e.what()); out.trace_hash = tr.h; return out; }
     size_t R = (size_t) std::min<uint64_t>(std::max<uint64_t>(p.get_u("readers", 2), 1), 16);
     size_t len = (size_t) p.get_u("script_len", 20);
     uint64_t sseed = p.get_u("script_seed", 1);
-    // solo pass 1
     std::vector<std::vector<uint64_t>> solo1(R), conc(R), solo2(R);
-    for (size_t r = 0; r < R; ++r) run_script(*subj, sim::mix(sseed, r), len, solo1[r]);
+    const bool cold = p.get_u("cold", 0) != 0;
+    std::unique_ptr<Subject> subj;
+    if (cold) {
+        // cold object: the concurrent readers are the first callers of any query operation on it (lazily initialised or
+        // cached state would be set up by them). The run-alone answers come from an identically constructed twin (same plan,
+        // same simulated environment from its start), which is destroyed before the shared object is built.
+        sim::begin_run(env);
+        try { subj.reset(make(p)); }
+        catch (const std::exception &e) { sim::end_run(); out.fail("ctor-exception", std::string("constructing the shared object threw: ") + e.what()); out.trace_hash = tr.h; return out; }
+        for (size_t r = 0; r < R; ++r) run_script(*subj, sim::mix(sseed, r), len, solo1[r]);
+        subj.reset();
+        sim::end_run();
+        st.inc("cold_object_runs");
+    }
+    sim::begin_run(env); // readers are interleaved by the same scheduler; construction happens here, single-threaded
+    try { subj.reset(make(p)); }
+    catch (const std::exception &e) { sim::end_run(); out.fail("ctor-exception", std::string("constructing the shared object threw: ") + e.what()); out.trace_hash = tr.h; return out; }
+    // solo pass 1 (warm object)
+    if (!cold) for (size_t r = 0; r < R; ++r) run_script(*subj, sim::mix(sseed, r), len, solo1[r]);
     // concurrent readers: created after construction, joined before destruction (the only edges TSan sees)
     std::vector<ReaderArg> args(R);
     std::vector<pthread_t> th(R);
